@@ -315,6 +315,23 @@ func Check(c *Case) (res kit.Result) {
 				return
 			}
 		}
+		// several buffers outstanding at the same time, all put back afterwards
+		var held []kit.AnyBuf
+		for i := 0; i < 2+c.N%3; i++ {
+			held = append(held, pool.Get())
+		}
+		for i, b := range held {
+			if !sizesOK(&res, fmt.Sprintf("buffer #%d of %d outstanding ones", i, len(held)), c, b, bits) {
+				return
+			}
+		}
+		for i, b := range held {
+			if p, v := kit.Try(func() { pool.Put(b) }); p {
+				res.Failf("Put of buffer #%d of %d outstanding ones obtained from PoolAlloc(%+v) panicked: %v", i, len(held), c.alloc(), v)
+				return
+			}
+		}
+		res.Class("severalOutstandingPooledBuffers")
 	case "poolAfterGrowth":
 		// A buffer obtained from a zero-capacity pool may legitimately be grown by
 		// appending a non-empty buffer to it (it then leaves the pool's capacity
